@@ -7,6 +7,7 @@ import (
 	"bufio"
 	"fmt"
 	"io"
+	"os"
 	"os/exec"
 	"strconv"
 	"strings"
@@ -47,10 +48,16 @@ type Solver struct {
 	bin       string
 	args      []string
 	script    io.Writer // optional transcript
+	logic     string
 }
 
 func NewSolver(tt *TermTable, timeoutMs int) (*Solver, error) {
-	s := &Solver{tt: tt, defined: map[*Term]bool{}, ufDecl: map[string]bool{}, timeoutMs: timeoutMs, bin: "z3", args: []string{"-in"}}
+	s := &Solver{tt: tt, defined: map[*Term]bool{}, ufDecl: map[string]bool{}, timeoutMs: timeoutMs, bin: "z3-new", args: []string{"-in"}, logic: "QF_UFBV"}
+	if b := os.Getenv("GOSYM_SOLVER"); b != "" {
+		f := strings.Fields(b)
+		s.bin, s.args = f[0], f[1:]
+		s.logic = os.Getenv("GOSYM_LOGIC")
+	}
 	if err := s.start(); err != nil {
 		return nil, err
 	}
@@ -74,6 +81,13 @@ func (s *Solver) start() error {
 	s.in = in
 	s.out = bufio.NewReaderSize(out, 1<<16)
 	s.scopes = []scope{{}}
+	if p := os.Getenv("GOSYM_SMT"); p != "" && s.script == nil {
+		f, _ := os.Create(p)
+		s.script = f
+	}
+	if s.logic != "" {
+		s.send("(set-logic " + s.logic + ")\n")
+	}
 	s.send(fmt.Sprintf("(set-option :timeout %d)\n(set-option :print-success false)\n", s.timeoutMs))
 	return nil
 }
